@@ -20,6 +20,7 @@ type c01Case struct {
 	EOFData bool   `json:"eof_with_data"`
 	RDelay  int    `json:"read_delay"`
 	RProcs  int    `json:"rprocs"`
+	Stmt    bool   `json:"stmt_yields,omitempty"` // statement-level yields inside package bgzf
 	Blocked bool   `json:"-"`
 }
 
@@ -91,6 +92,7 @@ func (c01) Gen(t *Tape, tier string, run int) interface{} {
 	c.EOFData = t.Bool("work")
 	c.RDelay = t.Pick("work", 0, 0, 1, 3)
 	c.RProcs = t.Pick("work", 1, 2, 3, 4)
+	c.Stmt = t.Chance("work", 1, 4) && len(c.W.Written()) <= 20000
 	return c
 }
 
@@ -141,6 +143,7 @@ func readAll(x *Exec, r *bgzf.Reader, reads []int, limit int) (got []byte, err e
 func (c01) Exec(x *Exec, ci interface{}) *Verdict {
 	c := ci.(*c01Case)
 	vd := &Verdict{}
+	x.StmtAll = c.Stmt
 	want := c.W.Written()
 	file := &File{X: x, Name: "f", MaxDelay: c.W.MaxDelay}
 	var werr *apiErr
